@@ -20,7 +20,7 @@ from typing import Dict, List, Optional, Set, Tuple
 from ..absint import DT, NONE, Cls, Const, Inst, Interp, Obj, Raised, Tup, _Break, _Continue, _Return, value_of_tag
 from ..astutil import Defs
 from ..cfg import PARAM, cfg_of
-from ..core import AnalysisError, FuncInfo, attr_chain, kwarg, short, walk_no_nested, walk_stmts
+from ..core import AnalysisError, FuncInfo, attr_chain, cshort, kwarg, short, walk_no_nested, walk_stmts
 from ..sites import (Resolver, Site, all_sites, comp_of, fill_of, is_bool_expr, is_never_none_expr, same_elements_of,
                      vector_valued)
 from .c04 import CORE_TAGS, NUMERIC, SUB_TAGS, TEMPORAL, canon, geq
@@ -767,7 +767,7 @@ def _promote(ctx) -> None:
     if not same:
         raise AnalysisError("_promote: early return `if self._dtype.kind is <target kind>: return` not found")
     tk = same[0].test.comparators[0].id
-    conv_of = {"float": "float(x)", "complex": "complex(x)", "datetime": "datetime.combine(x, datetime.min.time())"}
+    conv_of = {"float": "float(_0)", "complex": "complex(_0)", "datetime": "datetime.combine(_0, datetime.min.time())"}
 
     def visit(st: ast.If):
         t = st.test
@@ -799,8 +799,7 @@ def _promote(ctx) -> None:
                             and attr_chain(g.generators[0].iter) == ["self", "_underlying"]):
                         problems.append(f"branch to {to}: the new tuple is not built from ALL elements of self._underlying "
                                         f"(`{short(g, 60)}`): the vector would change length")
-                    elif not (isinstance(g.elt, ast.IfExp) and short(g.elt.test) == "x is not None" and short(g.elt.orelse) == "None"
-                              and short(g.elt.body) == conv_of.get(to, "?")):
+                    elif cshort(g) != f"({conv_of.get(to, '?')} if _0 is not None else None for _0 in self._underlying)":
                         problems.append(f"branch to {to}: elements are converted by `{short(g.elt, 60)}`, expected `{conv_of.get(to)} "
                                         f"if x is not None else None`")
         for o in st.orelse:
